@@ -25,12 +25,12 @@ def run(chk):
     chk.assume('byte-level inverse of writer and reader is covered by the token argument of C12 plus the bounded independent decoder; '
                'here the IR-level round trip parse(serialize(x)) is proved for the unit-bearing fields')
     mod = C12.load()
-    pixel_rows(chk, mod)
-    split_rows(chk, mod)
-    pix_metadata(chk, mod)
-    experiment(chk, mod)
-    unique_refs(chk, mod)
-    ir_roundtrip_units(chk)
+    chk.section('pixel_rows', pixel_rows, mod)
+    chk.section('split_rows', split_rows, mod)
+    chk.section('pix_metadata', pix_metadata, mod)
+    chk.section('experiment', experiment, mod)
+    chk.section('unique_refs', unique_refs, mod)
+    chk.section('ir_roundtrip_units', ir_roundtrip_units)
     bounded_files(chk)
 
 
